@@ -292,12 +292,13 @@ func init() {
 		Profiles: []sim.Profile{
 			{Name: "cas", Weight: 4, Fn: c08Profile(false)},
 			{Name: "ac", Weight: 1, Fn: c08Profile(true)},
+			{Name: "configured-blackbox", Weight: 2, Fn: c08Configured},
 		},
 		Components: map[string][]string{
-			"real": {"pkg/blobstore/local: old/current/new map (to-be-released counter, resolver), flat blob access, volatile block list, block-device-backed allocator, hashing index", "pkg/blobstore/buffer (validating readers, integrity callbacks)", "CAS/AC read buffer factories"},
+			"real": {"pkg/blobstore/local: old/current/new map (to-be-released counter, resolver), flat blob access, volatile block list, block-device-backed allocator, hashing index", "pkg/blobstore/buffer (validating readers, integrity callbacks)", "CAS/AC read buffer factories", "configured-blackbox profile: the store assembled by NewBlobAccessFromConfiguration (which map resolves the index's block references is part of that wiring)"},
 			"stub": {"data device with medium corruption (simdisk byte flips in the range of acknowledged copies)", "sources/sinks", "scheduling (verifsimrt)"},
 		},
-		Rule:           "a run = disk-backed store x 1-3 clients x 8-48 operations; at seeded steps one byte inside a completed copy is flipped on the medium (several per run); oracles: a read never succeeds with bytes other than the uploaded ones; an operation invoked after a detection never reads a block at or below the newest quarantined incarnation; an object reported present after a detection has a copy outside the quarantined blocks; an intact copy in a newer block stays readable; an upload finalized into a quarantined block is not acknowledged; after the last corruption uploads are accepted and readable; non-trivial = at least one corruption was detected",
+		Rule:           "a run = disk-backed store x 1-3 clients x 8-48 operations; at seeded steps one byte inside a completed copy is flipped on the medium (several per run); oracles: a read never succeeds with bytes other than the uploaded ones; an operation invoked after a detection never reads a block at or below the newest quarantined incarnation; an object reported present after a detection has a copy outside the quarantined blocks; an intact copy in a newer block stays readable; an upload finalized into a quarantined block is not acknowledged; after the last corruption uploads are accepted and readable; non-trivial = at least one corruption was detected; configured-blackbox profile: one client on a store assembled from a configuration message, copies located on the device by their content: a read of a damaged copy fails with INTERNAL, afterwards the object is absent for every call until it is uploaded again, uploads keep working",
 		RequiredProbes: []string{"fault_medium_corruption", "probe_detection", "probe_upload_after_quarantine", "probe_present_after_detection"},
 		Assumptions:    []string{"validation cache off (a cached validation legitimately skips detection)", "AC payloads are corrupted so that they certainly fail to parse (a flipped byte that still parses is undetectable by design)"},
 	})
